@@ -64,7 +64,7 @@ def is_block(e):
 
 def formula_source(name, params, body, style):
     """params: list of [name, default-int-or-None]"""
-    ps = ", ".join(p if d is None else "%s=%d" % (p, d) for p, d in params)
+    ps = ", ".join(p if d is None else "%s=%s" % (p, d) for p, d in params)
     if style == "lambda" and not is_block(body):
         return "lambda %s: %s" % (ps, pexpr(body)) if ps else "lambda: %s" % pexpr(body)
     return "def %s(%s):\n" % (name, ps) + pblock(body, 1)
@@ -737,6 +737,18 @@ def gen_case(rng, cid, py_builtins, stats):
             mode = r.choice([None, None, "absolute", "auto"])
             sp["refs"].append([n, ["space", j], mode])
             sp["_spaces"][n] = info_of(spaces[j])
+        # inside an ItemSpace tree: references to static spaces of the same tree are relative
+        # (the instance P[1].R.sib is P[1].Q, exporter ref_copies / _mx_is_in)
+        proot = [t for t in chain(i) if spaces[t].get("params") is not None]
+        if proot:
+            root = proot[-1]
+            cand2 = [j for j in done if j != i and spaces[j].get("params") is None and root in chain(j)
+                     and all(spaces[t].get("params") is None for t in chain(j)[:chain(j).index(root)])
+                     and spaces[j]["_order"]]
+            if cand2 and r.random() < 0.7 and "sib" not in sp["_spaces"]:
+                j = r.choice(cand2)
+                sp["refs"].append(["sib", ["space", j], r.choice([None, "auto", "relative"])])
+                sp["_spaces"]["sib"] = info_of(spaces[j])
         for n in r.sample(CELL_REFS, r.randint(0, 1)):
             cj = [j for j in cand if spaces[j]["_order"] and not any(spaces[t].get("params") is not None for t in chain(j))]
             if not cj:
